@@ -1,4 +1,290 @@
-(** C11 — closed-form shape queries agree with the shape's own outline. (placeholder while the
-    correspondence is brought up; statements follow) *)
-From Coq Require Import ZArith Reals Bool.
-From KV Require Import Scalar RInst Geom Rect ShapeTypes ShapeQueries RayCast.
+(** C11 — Closed-form shape queries agree with the shape's own outline.
+    Statements only; every proof is [exact <lemma>]. Real instance of the models
+    (model/Rect.v, model/ShapeQueries.v); the spec side is spec/RayCast.v (half-open leftward
+    ray cast of a polygonal outline, mirroring [PathSeg::winding_inner] for lines) and
+    spec/ShapeSpec.v (the ideal curved shapes as point sets; their Bézier outlines are C10's subject).
+
+    Models named [..._pinned] mirror the pinned code where it violates the property; the unsuffixed
+    model is the required behaviour (= the code with proposed_fixes/C11-*.diff applied), and it is
+    the one the correspondence check runs against the compiled crate. *)
+From Coq Require Import ZArith Reals List Bool.
+From KV Require Import Scalar RInst Geom Rect Affine Curves ShapeTypes ShapeQueries RectSpec RayCast ShapeSpec.
+From KV Require Import C11_proofs C11_curved C11_cseg C11_kummer C11_agm C11_examples.
+Import ListNotations.
+Local Open Scope R_scope.
+
+(** * Rect *)
+
+(** for ANY corner order and EVERY point (boundary points included) the closed form is the half-open
+    ray cast of the rectangle's own outline (x0,y0) (x1,y0) (x1,y1) (x0,y1) ... *)
+Theorem C11_rect_winding_eq_outline : forall (r : Rect R) (p : Point R),
+  rect_winding r p = poly_cast (rect_outline r) p.
+Proof. exact rect_winding_eq_outline. Qed.
+
+(** ... which is also what the model of the code's own [winding_inner] sums to on those 4 edges *)
+Theorem C11_rect_winding_eq_path_winding : forall (r : Rect R) (p : Point R),
+  rect_winding r p = poly_winding (rect_outline r) p.
+Proof. exact rect_winding_eq_path_winding. Qed.
+
+Theorem C11_line_winding_inner_is_half_open_rule : forall s e p : Point R,
+  line_winding_inner s e p = edge_cast s e p.
+Proof. exact line_winding_inner_eq_edge_cast. Qed.
+
+(** the rule: min <= p < max on both axes, sign = sign of the signed area *)
+Theorem C11_rect_winding_half_open : forall (r : Rect R) (p : Point R),
+  let inside := Rmin (rx0 r) (rx1 r) <= px p < Rmax (rx0 r) (rx1 r) /\
+                Rmin (ry0 r) (ry1 r) <= py p < Rmax (ry0 r) (ry1 r) in
+  (inside -> 0 < rect_area r -> rect_winding r p = 1%Z) /\
+  (inside -> rect_area r < 0 -> rect_winding r p = (-1)%Z) /\
+  (~ inside -> rect_winding r p = 0%Z) /\
+  (rect_area r = 0 -> rect_winding r p = 0%Z).
+Proof. exact rect_winding_half_open. Qed.
+
+Theorem C11_rect_winding_corner_order : forall (x0 y0 x1 y1 : R) (p : Point R),
+  let w := rect_winding (mkRect x0 y0 x1 y1) p in
+  rect_winding (mkRect x1 y0 x0 y1) p = (- w)%Z /\
+  rect_winding (mkRect x0 y1 x1 y0) p = (- w)%Z /\
+  rect_winding (mkRect x1 y1 x0 y0) p = w.
+Proof. exact rect_winding_corner_order. Qed.
+
+(** a grid of rectangles sharing edges (cuts [xs], [ys], sorted, repeated cuts allowed) assigns every
+    point of the covered region to exactly one tile, and points outside to none *)
+Theorem C11_rect_tiling : forall (xs ys : list R) (p : Point R),
+  sorted_idx xs -> sorted_idx ys -> (2 <= length xs)%nat -> (2 <= length ys)%nat ->
+  nth 0 xs 0 <= px p < nth (length xs - 1) xs 0 ->
+  nth 0 ys 0 <= py p < nth (length ys - 1) ys 0 ->
+  exists! ij : nat * nat,
+    (S (fst ij) < length xs)%nat /\ (S (snd ij) < length ys)%nat /\
+    rect_winding (tile xs ys (fst ij) (snd ij)) p <> 0%Z.
+Proof. exact rect_tiling. Qed.
+
+Theorem C11_rect_tiling_outside : forall (xs ys : list R) (p : Point R) i j,
+  sorted_idx xs -> sorted_idx ys -> (S i < length xs)%nat -> (S j < length ys)%nat ->
+  ~ (nth 0 xs 0 <= px p < nth (length xs - 1) xs 0 /\ nth 0 ys 0 <= py p < nth (length ys - 1) ys 0) ->
+  rect_winding (tile xs ys i j) p = 0%Z.
+Proof. exact rect_tiling_outside. Qed.
+
+(** bounding box = abs = the smallest box containing the outline's vertices; |area| and perimeter *)
+Theorem C11_rect_area_perimeter_bbox : forall r : Rect R,
+  let b := rect_bounding_box r in
+  b = rect_abs r /\ nonneg b /\
+  (forall c, In c (rect_outline r) -> in_closed b c) /\
+  (forall b', (forall c, In c (rect_outline r) -> in_closed b' c) -> subset b b') /\
+  Rabs (rect_area r) = rect_area b /\
+  rect_perimeter r = rect_perimeter b /\
+  rect_perimeter r = 2 * (Rabs (rx1 r - rx0 r) + Rabs (ry1 r - ry0 r)).
+Proof. exact rect_queries. Qed.
+
+(** * Triangle *)
+
+(** off the boundary, for every triangle (either orientation, degenerate ones included), the required
+    closed form is the ray cast of the outline a b c *)
+Theorem C11_triangle_winding_eq_outline : forall (t : Triangle R) (p : Point R),
+  ~ on_polygon (tri_outline t) p -> tri_winding t p = poly_cast (tri_outline t) p.
+Proof. exact tri_winding_eq_outline. Qed.
+
+(** the pinned code satisfies this for triangles of non-zero area ... *)
+Theorem C11_triangle_winding_pinned_eq_outline : forall (t : Triangle R) (p : Point R),
+  tri_area t <> 0 -> ~ on_polygon (tri_outline t) p ->
+  tri_winding_pinned t p = poly_cast (tri_outline t) p.
+Proof. exact tri_winding_pinned_eq_outline. Qed.
+
+(** ... and violates it for degenerate ones (all vertices equal: every point is "inside") *)
+Theorem C11_triangle_winding_pinned_degenerate_refuted :
+  exists (t : Triangle R) (p : Point R),
+    ~ on_polygon (tri_outline t) p /\ tri_winding_pinned t p <> poly_cast (tri_outline t) p.
+Proof. exact tri_winding_pinned_degenerate_refuted. Qed.
+
+Theorem C11_triangle_winding_sign : forall (t : Triangle R) (p : Point R),
+  (tri_winding t p = 1%Z -> 0 < tri_area t) /\ (tri_winding t p = (-1)%Z -> tri_area t < 0).
+Proof. exact tri_winding_sign. Qed.
+
+Theorem C11_triangle_area_bbox : forall t : Triangle R,
+  let b := tri_bounding_box t in
+  nonneg b /\
+  (forall c, In c (tri_outline t) -> in_closed b c) /\
+  (forall b', (forall c, In c (tri_outline t) -> in_closed b' c) -> subset b b') /\
+  tri_area t = orient (tri_a t) (tri_b t) (tri_c t) / 2.
+Proof. exact tri_queries. Qed.
+
+(** * Circle *)
+
+Theorem C11_circle_winding : forall (c : Circle R) (p : Point R),
+  (in_open_disc (ci_center c) (ci_radius c) p -> circle_winding c p = 1%Z) /\
+  (~ in_open_disc (ci_center c) (ci_radius c) p -> circle_winding c p = 0%Z).
+Proof. exact circle_winding_spec. Qed.
+
+(** area, perimeter (any sign of the radius); the bounding box contains the circle and each side is touched *)
+Theorem C11_circle_area_perimeter_bbox : forall c : Circle R,
+  let b := circle_bounding_box c in
+  let ctr := ci_center c in
+  circle_area c = PI * sq (ci_radius c) /\
+  circle_perimeter c = 2 * PI * Rabs (ci_radius c) /\
+  nonneg b /\
+  (forall q, on_circle ctr (ci_radius c) q -> in_closed b q) /\
+  on_circle ctr (ci_radius c) (mkPoint (rx0 b) (py ctr)) /\ on_circle ctr (ci_radius c) (mkPoint (rx1 b) (py ctr)) /\
+  on_circle ctr (ci_radius c) (mkPoint (px ctr) (ry0 b)) /\ on_circle ctr (ci_radius c) (mkPoint (px ctr) (ry1 b)).
+Proof. exact circle_queries. Qed.
+
+(** * Ellipse (the image of the unit circle under [inner]; [det <> 0] guards the division in [inverse]) *)
+
+Theorem C11_ellipse_winding : forall (e : Ellipse R) (p : Point R),
+  aff_determinant (el_inner e) <> 0 ->
+  (in_affine_disc (el_inner e) p -> ellipse_winding e p = 1%Z) /\
+  (~ in_affine_disc (el_inner e) p -> ellipse_winding e p = 0%Z).
+Proof. exact ellipse_winding_spec. Qed.
+
+(** area as the code computes it: pi times the product of the singular values of [Affine::svd] = pi |det| *)
+Theorem C11_ellipse_area : forall e : Ellipse R,
+  ellipse_area e = PI * Rabs (aff_determinant (el_inner e)).
+Proof. exact ellipse_area_spec. Qed.
+
+Theorem C11_ellipse_bbox_tight : forall e : Ellipse R,
+  let b := ellipse_bounding_box e in let m := el_inner e in
+  nonneg b /\
+  (forall q, on_affine_circle m q -> in_closed b q) /\
+  (exists q, on_affine_circle m q /\ px q = rx0 b) /\ (exists q, on_affine_circle m q /\ px q = rx1 b) /\
+  (exists q, on_affine_circle m q /\ py q = ry0 b) /\ (exists q, on_affine_circle m q /\ py q = ry1 b).
+Proof. exact ellipse_bbox_tight. Qed.
+
+(** the truncated Gauss-Kummer series and the remainder bound the code computes. The series itself and
+    its value at h = 1 are hypotheses that stay in the statement. *)
+Theorem C11_kummer_remainder : forall x y P : R, 0 < x -> 0 < y ->
+  let h := (x - y) / (x + y) * ((x - y) / (x + y)) in
+  infinite_sum (fun n => kummer_coeff n * h ^ n) (P / (PI * (x + y))) ->
+  infinite_sum kummer_coeff (4 / PI) ->
+  let K := kummer_elliptic_perimeter (mkVec2 x y) in
+  let Rg := kummer_elliptic_perimeter_range (mkVec2 x y) in
+  0 <= P - K /\ P - K <= PI * (x + y) * h ^ 7 * (4 / PI - S6) /\
+  PI * (x + y) * h ^ 7 * (4 / PI - S6) <= Rg /\ P - K <= Rg.
+Proof. exact kummer_remainder. Qed.
+
+Theorem C11_kummer_coefficients :
+  kummer_coeff 0 = 1 /\ kummer_coeff 1 = 1 / 4 /\ kummer_coeff 2 = 1 / 64 /\ kummer_coeff 3 = 1 / 256 /\
+  kummer_coeff 4 = 25 / 16384 /\ kummer_coeff 5 = 49 / 65536 /\ kummer_coeff 6 = 441 / 1048576.
+Proof. exact kummer_coeffs_0_6. Qed.
+
+(** the AGM branch ([agm_elliptic_perimeter], fuel = loop bound). Given the classical AGM formula for the
+    complete elliptic integral -- M between all the means, P = 2 pi x / M (1 - sum 2^(n-1) c_n^2) -- as
+    hypotheses in the statement, the required algorithm (mean iterated to convergence, eps = 2^-52)
+    returns the perimeter within the requested accuracy up to 2 eps relative ... *)
+Theorem C11_agm_accuracy_partial : forall x y : R, 0 < y -> y <= x -> forall P M : R,
+  (forall n, g_ x y n <= M <= a_ x y n) ->
+  infinite_sum (T_ x y) (1 - P * M / (2 * PI * x)) ->
+  forall (fuel : nat) (acc res : R), 0 < acc ->
+  agm_elliptic_perimeter fuel acc (mkVec2 x y) = Some res ->
+  Rabs (P - res) <= acc + 2 * eps52 * Rabs res.
+Proof. exact agm_accuracy. Qed.
+
+(** ... whereas for the pinned code (division by the current mean a_m) the same analysis leaves the term
+    (a_m - g_m)/g_m |res|, which the loop's exit test does not control: this is the defect the law
+    [ellipse_perimeter_accuracy] observes (error up to 1.09 x accuracy) *)
+Theorem C11_agm_accuracy_pinned_partial : forall x y : R, 0 < y -> y <= x -> forall P M : R,
+  (forall n, g_ x y n <= M <= a_ x y n) ->
+  infinite_sum (T_ x y) (1 - P * M / (2 * PI * x)) ->
+  forall (fuel : nat) (acc res : R), 0 < acc ->
+  agm_elliptic_perimeter_pinned fuel acc (mkVec2 x y) = Some res ->
+  exists m, Rabs (P - res) <= acc + (a_ x y m - g_ x y m) / g_ x y m * Rabs res.
+Proof. exact agm_accuracy_pinned. Qed.
+
+(** * RoundedRect *)
+
+(** [from_rect] (the only constructor) normalises the rectangle and clamps |radius| to half the shorter side *)
+Theorem C11_rounded_rect_clamping : forall (rect : Rect R) (radii : RoundedRectRadii R),
+  let rr := rr_from_rect rect radii in
+  let m := Rmin (Rabs (rx1 rect - rx0 rect)) (Rabs (ry1 rect - ry0 rect)) / 2 in
+  rr_wf rr /\ rr_rect rr = rect_abs rect /\
+  r_top_left (rr_radii rr) = Rmin (Rabs (r_top_left radii)) m /\
+  r_top_right (rr_radii rr) = Rmin (Rabs (r_top_right radii)) m /\
+  r_bottom_right (rr_radii rr) = Rmin (Rabs (r_bottom_right radii)) m /\
+  r_bottom_left (rr_radii rr) = Rmin (Rabs (r_bottom_left radii)) m.
+Proof. exact rr_from_rect_wf. Qed.
+
+(** winding (quadrant selection by the centre, corner-circle test) = membership in
+    (rectangle minus corner squares) + corner discs, for every point *)
+Theorem C11_rounded_rect_winding : forall (rr : RoundedRect R) (p : Point R), rr_wf rr ->
+  (in_rounded_rect rr p -> rr_winding rr p = 1%Z) /\ (~ in_rounded_rect rr p -> rr_winding rr p = 0%Z).
+Proof. exact rr_winding_spec. Qed.
+
+Theorem C11_rounded_rect_area_perimeter_bbox : forall rr : RoundedRect R, rr_wf rr ->
+  let r := rr_rect rr in let q := rr_radii rr in
+  let tl := r_top_left q in let tr := r_top_right q in let br := r_bottom_right q in let bl := r_bottom_left q in
+  let w := rx1 r - rx0 r in let h := ry1 r - ry0 r in
+  rr_area rr = w * h - (sq tl + sq tr + sq br + sq bl) + (PI * sq tl + PI * sq tr + PI * sq br + PI * sq bl) / 4 /\
+  rr_perimeter rr = ((w - tl - tr) + (h - tr - br) + (w - br - bl) + (h - bl - tl))
+                    + (2 * PI * tl + 2 * PI * tr + 2 * PI * br + 2 * PI * bl) / 4 /\
+  rr_bounding_box rr = r /\
+  (forall p, in_rounded_rect rr p -> in_closed r p) /\
+  in_rounded_rect rr (mkPoint (rx0 r + tl) (ry0 r)) /\ in_rounded_rect rr (mkPoint (rx1 r) (ry0 r + tr)) /\
+  in_rounded_rect rr (mkPoint (rx1 r - br) (ry1 r)) /\ in_rounded_rect rr (mkPoint (rx0 r) (ry1 r - bl)).
+Proof. exact rr_queries. Qed.
+
+(** * CircleSegment, 0 <= inner <= outer *)
+
+(** required behaviour: sweep in (0, 2 pi], ANY start angle: winding 1 exactly on the annular sector *)
+Theorem C11_circle_segment_winding : forall (s : CircleSegment R) (p : Point R),
+  0 <= cs_inner_radius s <= cs_outer_radius s -> 0 < cs_sweep_angle s <= 2 * PI ->
+  (in_sector s p -> cseg_winding s p = 1%Z) /\ (~ in_sector s p -> cseg_winding s p = 0%Z).
+Proof. exact cseg_winding_spec. Qed.
+
+(** (beyond the property's quantifier) a negative sweep runs the outline backwards: winding -1 *)
+Theorem C11_circle_segment_winding_negative_sweep : forall (s : CircleSegment R) (p : Point R),
+  0 <= cs_inner_radius s <= cs_outer_radius s -> - (2 * PI) <= cs_sweep_angle s < 0 ->
+  (in_sector_neg s p -> cseg_winding s p = (-1)%Z) /\ (~ in_sector_neg s p -> cseg_winding s p = 0%Z).
+Proof. exact cseg_winding_spec_neg. Qed.
+
+(** the pinned code compares the raw atan2 angle (in (-pi, pi]) with [start, start + sweep]:
+    refuted, with a point strictly inside a sector whose angular range leaves (-pi, pi] *)
+Theorem C11_circle_segment_winding_pinned_refuted :
+  exists (s : CircleSegment R) (p : Point R),
+    0 <= cs_inner_radius s <= cs_outer_radius s /\ 0 < cs_sweep_angle s <= 2 * PI /\
+    in_sector s p /\ cseg_winding s p = 1%Z /\ cseg_winding_pinned s p = 0%Z.
+Proof. exact cseg_winding_pinned_refuted. Qed.
+
+Theorem C11_circle_segment_area_perimeter : forall s : CircleSegment R,
+  cs_inner_radius s <= cs_outer_radius s -> 0 <= cs_inner_radius s ->
+  let ro := cs_outer_radius s in let ri := cs_inner_radius s in let sw := cs_sweep_angle s in
+  cseg_area s = (sq ro * sw) / 2 - (sq ri * sw) / 2 /\
+  cseg_perimeter s = (ro - ri) + ro * sw + (ro - ri) + ri * sw.
+Proof. exact cseg_queries. Qed.
+
+(** * Line (not a closed shape: only the bounding box, length, zero area / winding) *)
+Theorem C11_line_shape : forall l : Line R,
+  let b := line_shape_bounding_box l in
+  nonneg b /\ in_closed b (l0 l) /\ in_closed b (l1 l) /\
+  (forall b', in_closed b' (l0 l) -> in_closed b' (l1 l) -> subset b b') /\
+  line_shape_perimeter l = sqrt (sq (px (l1 l) - px (l0 l)) + sq (py (l1 l) - py (l0 l))) /\
+  line_shape_area l = 0 /\ (forall p, line_shape_winding l p = 0%Z).
+Proof. exact line_queries. Qed.
+
+(** * Non-vacuity *)
+
+Example C11_tiling_hypotheses_satisfiable :
+  sorted_idx [0; 1; 1; 3] /\ (2 <= length [0; 1; 1; 3])%nat /\
+  rect_winding (tile [0; 1; 1; 3] [0; 2] 2 0) (mkPoint 1 0) = 1%Z /\
+  rect_winding (tile [0; 1; 1; 3] [0; 2] 0 0) (mkPoint 1 0) = 0%Z.
+Proof. exact tiling_example. Qed.
+
+Example C11_triangle_off_boundary_satisfiable :
+  let t := mkTriangle (mkPoint 0 0) (mkPoint 4 0) (mkPoint 0 4) in
+  ~ on_polygon (tri_outline t) (mkPoint 1 1) /\ tri_winding t (mkPoint 1 1) = 1%Z /\
+  ~ on_polygon (tri_outline t) (mkPoint 5 5) /\ tri_winding t (mkPoint 5 5) = 0%Z /\
+  tri_winding (mkTriangle (mkPoint 0 0) (mkPoint 0 4) (mkPoint 4 0)) (mkPoint 1 1) = (-1)%Z.
+Proof. exact triangle_example. Qed.
+
+Example C11_rounded_rect_wf_satisfiable :
+  let rr := rr_from_rect (mkRect 10 4 0 0) (mkRadii 1 (-2) 5 0) in
+  rr_wf rr /\ rr_radii rr = mkRadii 1 2 2 0 /\
+  rr_winding rr (mkPoint 5 2) = 1%Z /\ rr_winding rr (mkPoint (99 / 10) (39 / 10)) = 0%Z.
+Proof. exact rounded_rect_example. Qed.
+
+Example C11_ellipse_guard_satisfiable :
+  aff_determinant (mkAffine 2 0 0 (-1) 5 5) <> 0 /\
+  ellipse_winding (mkEllipse (mkAffine 2 0 0 (-1) 5 5)) (mkPoint 6 5) = 1%Z /\
+  ellipse_winding (mkEllipse (mkAffine 2 0 0 (-1) 5 5)) (mkPoint 5 7) = 0%Z.
+Proof. exact ellipse_example. Qed.
+
+Example C11_agm_hypotheses_satisfiable :
+  0 < 1 /\ 1 <= 1 /\ (forall n, g_ 1 1 n <= 1 <= a_ 1 1 n) /\
+  infinite_sum (T_ 1 1) (1 - (2 * PI) * 1 / (2 * PI * 1)).
+Proof. exact agm_hypotheses_circle. Qed.
